@@ -50,8 +50,11 @@ func proto(kind, ns, nm, variant int) Obj {
 		o.Spec, o.Sel = SService, []Map{nil, {{1, 1}}, {{1, 2}}}[variant%3]
 	case KRC:
 		o.Spec, o.Sel = SRC, []Map{{{1, 1}}, {{1, 2}}}[variant%2]
+		o.Scale = (variant/2 + 1) % 3
 	case KRS, KDeployment, KDaemonSet, KStatefulSet, KJob:
 		o.Spec = SWorkload
+		// scaled to zero, scaled to three, or unset: ownership does not depend on it
+		o.Scale = (variant/2 + 1) % 3
 		o.LSel = []*LSel{{Labels: Map{{1, 1}}}, {Labels: Map{{1, 2}}}, nil}[variant%3]
 		o.Tmpl = Map{{1, 1 + variant%2}}
 	case KEvent:
@@ -221,6 +224,10 @@ func runC20(c *Ctx) {
 					}
 					if len(h.ids) == 1 && h.ids[0] == -1 {
 						problems = append(problems, "typed monitor callback "+h.what+" received a nil object (an object of another type was not skipped)")
+					}
+					if h.what == "hijack" {
+						problems = append(problems, "a handler created from a builder changed when the builder was configured again afterwards (the monitor ran the later callbacks)")
+						continue
 					}
 					cbs = append(cbs, [2]int{map[string]int{"create": 0, "update": 1, "delete": 2}[h.what], h.ids[0]})
 				}
@@ -417,6 +424,13 @@ func restCheck(c *Ctx) {
 		mu.Unlock()
 		w.Header().Set("Content-Type", "application/json")
 		if r.URL.Query().Get("watch") != "" || strings.Contains(r.URL.Path, "/watch/") {
+			if r.URL.Query().Get("resourceVersion") == "503" {
+				// the server is unavailable for this connect: the client reports the
+				// error to its caller (the watcher retries from the same version)
+				w.WriteHeader(503)
+				fmt.Fprint(w, `{"kind":"Status","apiVersion":"v1","status":"Failure","reason":"ServiceUnavailable","code":503}`)
+				return
+			}
 			w.WriteHeader(200)
 			return
 		}
@@ -468,11 +482,25 @@ func restCheck(c *Ctx) {
 					w.Stop()
 				}
 			}
+			mu.Lock()
+			got := append([]restReq(nil), reqs...)
+			reqs = nil
+			mu.Unlock()
+			// a connect that the server refuses: one request, carrying the resume
+			// version, and an error for the caller
+			wf, ferr := cl.Watch(ctx, metav1.ListOptions{ResourceVersion: "503", Watch: true})
+			if wf != nil {
+				wf.Stop()
+			}
 			cancel()
 			c.Rep.Evaluations++
 			mu.Lock()
-			got := append([]restReq(nil), reqs...)
+			failed := append([]restReq(nil), reqs...)
 			mu.Unlock()
+			if ferr == nil || len(failed) != 1 || !strings.Contains(failed[0].query, "resourceVersion=503") {
+				c.Violation("", fmt.Sprintf("types/%s client (namespace %q): a refused watch connect led to the requests %v and error %v; expected one request with the resume version and an error", e.name, ns, failed, ferr),
+					map[string]interface{}{"package": e.name, "namespace": ns, "requests": fmt.Sprint(failed), "watch_error": fmt.Sprint(ferr)})
+			}
 			nsPart := ""
 			if ns != "" {
 				nsPart = "/namespaces/" + ns
